@@ -145,7 +145,36 @@ class Repo:
             raise AnchorError(f"{modname}:{qual} is not a function")
         if canon and not os.environ.get("VF_NO_CANON"):
             return self.canon(self.modules[modname], d)
-        return d  # type: ignore[return-value]
+        return self.named(self.modules[modname], d)  # type: ignore[return-value]
+
+    def named(self, mod: "Module", fn: ast.FunctionDef) -> ast.FunctionDef:
+        """the function as written, with its locals renamed back to the reference spelling where they are recognised (sa/refnames.py);
+        the original node when nothing had to be renamed"""
+        cache = self.__dict__.setdefault("_named_cache", {})
+        if id(fn) in cache:
+            return cache[id(fn)]
+        from . import refnames
+        from .canon import clone, set_parents
+        res = fn
+        q = self.qualname_of(mod, fn)
+        if q and refnames.table().get(mod.name, {}).get(q):
+            sig = refnames.signatures(fn)
+            ref = refnames.table()[mod.name][q]
+            if any(ref.get(k) and ref[k] != name for name, k in sig.items()):
+                c = clone(fn)
+                if refnames.restore(mod.name, q, c):
+                    set_parents(c, getattr(fn, "_parent", None))
+                    c._named_of = fn
+                    res = c
+        cache[id(fn)] = res
+        return res
+
+    def qualname_of(self, mod: "Module", fn: ast.AST) -> Optional[str]:
+        idx = mod.__dict__.get("_qual_index")
+        if idx is None:
+            idx = {id(v): k for k, v in mod.defs.items()}
+            mod.__dict__["_qual_index"] = idx
+        return idx.get(id(fn))
 
     def canon(self, mod: "Module", fn: ast.FunctionDef) -> ast.FunctionDef:
         if not hasattr(self, "_canonicalizer"):
